@@ -118,6 +118,16 @@ CHECKS['C14'] = dict(
     technique="Coq proof (uniqueness of sorted permutation under a separating comparator; identifier function) + repeated-run differential exploration under environment perturbations",
     ref="5/C14")
 
+CHECKS['C06'] = dict(
+    text="Proof: for every type built from pointers, lvalue/rvalue references, const, arrays, functions and method pointers, nested to any depth, the declarator that the printers "
+         "(output_instance of each CPPType subclass, model with prename/name kept structural) emit denotes exactly that type under [dcl.meaning]; the pinned array printer and the "
+         "data-member-pointer case are refuted by witnesses (the first was repaired, the second is a recorded finding). Correspondence: thousands of random declarator trees written by an "
+         "independent west-const printer are re-printed by parse_file; the text must equal the model's and g++ must find decltype(original) and decltype(reprinted) the same type; "
+         "acceptance: every generated declaration and every parser-inc stub header that g++ accepts must parse.",
+    note=TB + "the bison grammar (modifier order, name lookup, templates) is not modelled: the parse half is covered only by the g++ differential; g++ 12 decides type identity.",
+    technique="Coq proof (invariant denotes(pr t pre c) = meaning c (apply pre t) by induction on types) + round-trip differential check with g++ std::is_same as oracle",
+    ref="5/C06")
+
 PENDING = {
 }
 
